@@ -1,7 +1,8 @@
 """C16 — Components listings, lookups and events stay mutually consistent.
 
 Lean: ZI/Components.lean (the eight register/unregister methods over the registry model, the {provided: {component: count}}
-cache with its switch to the non-hashing counter, listings, events, the rebuild probe), ZI/Props/C16.lean.
+cache with its switch to the non-hashing counter and its re-population from the listing when the volatile cache has gone away -- pickle round trip of a picklable
+Components, __init__ run again --, listings, events, the rebuild probe), ZI/Props/C16.lean.
 Tie: histories over related provided interfaces, names, components that are identical / equal-but-distinct / unhashable /
 unhashable-and-equal-to-a-hashable-one, replacement then removal; after every call the return value, the events, the four
 listings, utility and adapter queries, subscriptions and the probe are compared with the model on both twins.
@@ -9,8 +10,10 @@ Oracle: the statement's bookkeeping (four flat listings) kept by the harness its
 from .. import core, runner
 
 THEOREMS = ["ZI.Components.C16_unregisterUtility", "ZI.Components.C16_registerUtility_events", "ZI.Components.C16_adapters", "ZI.Components.C16_subscriptions",
-            "ZI.Components.cacheUnregister_listing", "ZI.Components.C16_pinned_violates"]
+            "ZI.Components.cacheUnregister_listing", "ZI.Components.C16_pinned_violates",
+            "ZI.Components.reload_listings", "ZI.Components.populateCache_counts", "ZI.Components.reload_counts"]
 NAMES = ["", "a"]
+UNAMES = ["", "a", "b"]     # utilities also under a third name (seen by the listing, getUtilitiesFor, getAllUtilitiesRegisteredFor, the probe)
 # required specifications: 3 = R1, 4 = R2(R1), 0 = Interface (also spelled None), 5 = implementedBy(K) with K implementing R1
 # (also spelled by passing the class K itself; 6 = implementedBy(object), in its resolution order).  Marker tokens in the required field, ignored by the model: `@` = the
 # `required` argument is omitted and read from factory.__component_adapts__; `~` = Interface is spelled None
@@ -64,16 +67,41 @@ def gen_script(rnd, tier, state):
             rs = "~ " + rs
         return rs
     mix = rnd.random() < 0.4        # allow an unhashable component equal to a hashable one
+    # half of the histories run on a picklable Components (a subclass with picklable registries, as
+    # zope.component.persistentregistry builds one) and are stored and re-loaded now and then: the utility counter cache is
+    # volatile and has to be rebuilt from the listing, the lookup objects are created anew.  Any history may run __init__ again.
+    persistent = rnd.random() < 0.5
+    if persistent:
+        L.append("persist")
+    p_reload = rnd.choice([0.05, 0.1, 0.2]) if persistent else 0.0
     for step in range(rnd.randint(5, 40 if tier == "thorough" else 28)):
         k = rnd.random()
+        # a rebuilt counter differs from an empty one only where a component is registered more than once for an interface
+        several = len({(pp, w[1]) for (pp, nn), (w, _) in S.util.items()}) < len(S.util)
+        if rnd.random() < p_reload * (3 if several else 1):
+            L.append("reload")
+            L += observations()
+            if rnd.random() < 0.6:
+                k *= 0.42            # the rebuilt counter is consulted by the utility calls only: mostly one of those next
+        elif rnd.random() < 0.012:
+            L.append("reinit")
+            S = Spec()
+            L += observations()
         p = rnd.choice([1, 2])
         n = rnd.choice(NAMES)
         req = rnd.choice(REQ)
         rs = " ".join(map(str, req))
         if k < 0.25:
+            n = rnd.choice(UNAMES) if rnd.random() < 0.3 else n
             v = val(mix)
             info = rnd.choice(["", "x"])
             old = S.util.get((p, n))
+            shared = [w for (pp, nn), (w, _) in S.util.items() if pp == p and nn != n]
+            if shared and rnd.random() < 0.35:
+                v = rnd.choice(shared)                                      # one component under several names of one interface
+                if rnd.random() < 0.25:
+                    state["vid"] += 1
+                    v = (state["vid"], v[1], v[2])                          # ... or an equal one
             if old and rnd.random() < 0.3:
                 v, info = old[0], old[1]                                   # the very same registration again: a no-op
             elif old and rnd.random() < 0.2:
@@ -86,6 +114,7 @@ def gen_script(rnd, tier, state):
             if S.util and rnd.random() < 0.75:
                 (p, n), old = rnd.choice(list(S.util.items()))
             else:
+                n = rnd.choice(UNAMES) if rnd.random() < 0.3 else n
                 old = S.util.get((p, n))
             r = rnd.random()
             if r < 0.35 or old is None:
@@ -142,19 +171,25 @@ def gen_script(rnd, tier, state):
                 v = None if rnd.random() < 0.4 else val(mix)
             L.append("unregH|%s|%s" % (sv(v), mark(rs, v)))
             S.hand = [s for s in S.hand if not (s[0] == req and (v is None or eq(v, s[1])))]
-        L += ["listU", "listA", "listS", "listH"]
-        for pp in (1, 2):
-            for nn in NAMES:
-                L.append("qU|%d|%s" % (pp, nn))
-                L.append("qA|4|%d|%s" % (pp, nn))
-            L.append("allU|%d" % pp)
-            L.append("forU|%d" % pp)
-            L.append("subsA|4|%d" % pp)
-            L.append("qA|5|%d|" % pp)
-        L.append("subsA|5|N")
-        L.append("subsA|4|N")
-        L.append("subsA|3 4|N")
-        L.append("probe")
+        L += observations()
+    return L
+
+
+def observations():
+    """what is looked at after every call: the four listings, utility / adapter / subscription queries, the probe"""
+    L = ["listU", "listA", "listS", "listH"]
+    for pp in (1, 2):
+        for nn in NAMES:
+            L.append("qU|%d|%s" % (pp, nn))
+            L.append("qA|4|%d|%s" % (pp, nn))
+        L.append("allU|%d" % pp)
+        L.append("forU|%d" % pp)
+        L.append("subsA|4|%d" % pp)
+        L.append("qA|5|%d|" % pp)
+    L.append("subsA|5|N")
+    L.append("subsA|4|N")
+    L.append("subsA|3 4|N")
+    L.append("probe")
     return L
 
 
@@ -164,6 +199,17 @@ def oracle(chk, lines, outs, known=None):
     dead = False
     mixed_seen = False
     seen_comps = {}
+    epoch, born = 0, {}             # number of re-loads so far in the history; (provided, name) -> epoch of its registration
+
+    def removed_utility(S, p, n, v):
+        # one name of a component goes away while the same (==) component stays registered for the same interface under
+        # another name: the case the per-(provided, component) counter exists for
+        others = [k for k, (w, _) in S.util.items() if k[0] == p and k[1] != n and eq(w, v)]
+        if others:
+            chk.count("shared_utility_name_removed")
+            if born.get((p, n), 0) < epoch and any(born.get(k, 0) < epoch for k in others):
+                chk.count("shared_utility_name_removed_after_reload")
+        born.pop((p, n), None)
     for i, (line, out) in enumerate(zip(lines, outs)):
         f = [x.strip() for x in line.split("|")]
         op = f[0]
@@ -172,11 +218,45 @@ def oracle(chk, lines, outs, known=None):
             dead = False
             mixed_seen = False
             seen_comps = {}
+            epoch, born = 0, {}
             continue
         if dead:
             continue
         if out.startswith("err") or out == "bad" or out.startswith("sro-mismatch"):
             bad.append((i, "%s -> %s" % (line, out)))
+            continue
+        if op == "persist":
+            chk.count("persistent_histories")
+            if out != "ok":
+                bad.append((i, "%s -> %s" % (line, out)))
+            continue
+        if op == "reload":
+            # the statement's bookkeeping is untouched by storing and re-loading the object: the same listings, answers and
+            # a clean probe are expected of the observations that follow, and of every later call
+            epoch += 1
+            chk.count("reloads")
+            per = {}
+            for (pp, nn), (w, _) in S.util.items():
+                per[(pp, w[1])] = per.get((pp, w[1]), 0) + 1
+            if any(c > 1 for c in per.values()):
+                chk.count("reloads_with_component_under_several_names")
+            if any(not w[2] for (w, _) in S.util.values()):
+                chk.count("reloads_with_unhashable_utility")
+            if S.adap or S.subs or S.hand:
+                chk.count("reloads_with_adapters_or_subscribers")
+            if out != "ok":
+                bad.append((i, "pickle round trip of the Components: %s (expected: no event, sharing of components kept)" % out))
+            continue
+        if op == "reinit":
+            chk.count("reinits")
+            if S.util or S.adap or S.subs or S.hand:
+                chk.count("reinits_of_nonempty")
+            S = Spec()
+            mixed_seen = False
+            seen_comps = {}
+            epoch, born = 0, {}
+            if out != "ok":
+                bad.append((i, "%s -> %s" % (line, out)))
             continue
 
         def cv(s):
@@ -206,13 +286,17 @@ def oracle(chk, lines, outs, known=None):
                     if old is not None:
                         want_ev = ["U:Utility"]
                         chk.count("replacements")
+                        del S.util[(p, n)]
+                        removed_utility(S, p, n, old[0])
                     want_ev = want_ev + ["R:Utility"]
                     S.util[(p, n)] = (v, info)
+                    born[(p, n)] = epoch
             elif op == "unregU":
                 p, n = int(f[2]), f[3]
                 old = S.util.get((p, n))
                 if old is not None and (v is None or eq(v, old[0])):
                     del S.util[(p, n)]
+                    removed_utility(S, p, n, old[0])
                     want_ret, want_ev = "True", ["U:Utility"]
                 else:
                     want_ret = "False"
@@ -281,6 +365,23 @@ def oracle(chk, lines, outs, known=None):
             chk.count("utility_queries")
             if got not in acc:
                 bad.append((i, "queryUtility(P%d, %r) = %s, the live registrations give %s" % (p, n, out, sorted(acc, key=str))))
+        elif op == "forU":
+            # getUtilitiesFor: one (name, component) per name that has an applicable live registration, answered as queryUtility would
+            p = int(f[1])
+            got = {}
+            for tok in out.split():
+                nm, _, x = tok.rpartition("=")
+                got[nm] = int(x)
+            names = {nn for (pp, nn) in S.util if p in EXT[pp]}
+            chk.count("utility_enumerations")
+            if set(got) != names:
+                bad.append((i, "getUtilitiesFor(P%d) names %s, names with a live applicable registration: %s" % (p, sorted(got), sorted(names))))
+            else:
+                for nn in sorted(names):
+                    cands = [(pp, v) for (pp, n2), (v, info) in S.util.items() if n2 == nn and p in EXT[pp]]
+                    acc = {v[0] for pp, v in cands if not any(q != pp and q in EXT[pp] for q, _ in cands)}
+                    if got[nn] not in acc:
+                        bad.append((i, "getUtilitiesFor(P%d) gives %r -> %s, the live registrations give %s" % (p, nn, got[nn], sorted(acc))))
         elif op == "allU":
             p = int(f[1])
             want = len({(pp, v[1], v[0] if not v[2] else None) for (pp, nn), (v, info) in S.util.items() if p in EXT[pp]})
@@ -352,7 +453,7 @@ def check(tier):
         if k in seen or len(seen) >= 3:
             continue
         seen.add(k)
-        script = [l for l in f["script"] if l.split("|")[0] in ("reset", "sro", "regU", "unregU", "regA", "unregA", "regS", "unregS", "regH", "unregH")] + [f["script"][-1]]
+        script = [l for l in f["script"] if l.split("|")[0] in ("reset", "sro", "persist", "reload", "reinit", "regU", "unregU", "regA", "unregA", "regS", "unregS", "regH", "unregH")] + [f["script"][-1]]
         chk.violation("%s [mode=%s]" % (f["message"], f["mode"]),
                       dict(kind="history", mode=f["mode"], script=script, observed=f["observed"], expected_by="spec", minimised=True))
     if not fails:
@@ -367,7 +468,9 @@ def check(tier):
     return chk.finish(len(lines), chk.counters.get("replacements", 0) + chk.counters.get("noop_registrations", 0),
                       "histories of the eight register/unregister methods over provided P1 <- P2, required R1 <- R2 (arity 1-2), two names, components that are identical / "
                       "equal-but-distinct / unhashable / (in 40% of the histories) unhashable and equal to a hashable one; removals aimed at live registrations with the same, "
-                      "an equal, or another component; after every call: return value, events, four listings, utility / adapter / subscription queries, probe; "
+                      "an equal, or another component; half of the histories on a picklable Components that is stored and re-loaded (pickle round trip: the volatile counter cache "
+                      "is rebuilt from the listing, the lookup objects anew) at 5-20% of the steps, __init__ run again at 1% of the steps; "
+                      "after every call (and every re-load / re-initialisation): return value, events, four listings, utility / adapter / subscription queries, probe; "
                       "distinct_nontrivial = utility replacements and no-op re-registrations")
 
 
